@@ -629,7 +629,7 @@ MUTANTS = [
     Mutant('upper bound exclusive', F, '    if (min_allowed_pitch <= new_pitch <= max_allowed_pitch) or note.is_drum:', '    if (min_allowed_pitch <= new_pitch < max_allowed_pitch) or note.is_drum:', rule='OPERAND/range'),
     Mutant('counter counts kept notes', F, '      new_note_list.append(note)\n    else:\n      deleted_note_count += 1', '      new_note_list.append(note)\n      deleted_note_count += 1\n    else:\n      pass', rule='DRUM/count'),
     Mutant('drums transposed too', F, '      if not note.is_drum:\n        note.pitch += amount', '      if True:\n        note.pitch += amount', rule='DRUM/pitch-untouched'),
-    Mutant('drums range-tested', F, '    if (min_allowed_pitch <= new_pitch <= max_allowed_pitch) or note.is_drum:', '    if (min_allowed_pitch <= new_pitch <= max_allowed_pitch):', rule='DRUM/kept'),
+    Mutant('drums range-tested', F, '    if (min_allowed_pitch <= new_pitch <= max_allowed_pitch) or note.is_drum:', '    if (min_allowed_pitch <= new_pitch <= max_allowed_pitch):', rule='DRUM/'),
     Mutant('velocity clamped', F, '        note.pitch += amount\n', '        note.pitch += amount\n        note.velocity = min(note.velocity, 127)\n', rule='FRAME/'),
     Mutant('total_time from all notes', F, '    if (min_allowed_pitch <= new_pitch <= max_allowed_pitch) or note.is_drum:\n      end_time = max(end_time, note.end_time)\n',
            '    end_time = max(end_time, note.end_time)\n    if (min_allowed_pitch <= new_pitch <= max_allowed_pitch) or note.is_drum:\n', rule='DRUM/total-time'),
